@@ -45,12 +45,15 @@ def gen(rng, isa, script=None, load_via=None):
 
     lines = []
     env = {r: (r, 0) for r in regs}       # register -> (origin, offset) | None
-    store_txt = ("movq %%rdx, %s" if isa == "x86" else "str x9, %s") % opnd(B, I, S, D)
+    # the store is a plain store or (x86) a read-modify-write instruction, whose memory operand is NOT the first
+    # destination operand the dependency scan walks (flags come first)
+    store_fmt = rng.choice(["movq %%rdx, %s", "movq %%rdx, %s", "addq %%rdx, %s", "subq $1, %s"]) if isa == "x86" else "str x9, %s"
+    store_txt = store_fmt % opnd(B, I, S, D)
     lines.append(store_txt)
     killed = False
     if script is not None:
         I, S = None, 1
-        lines[0] = store_txt = ("movq %%rdx, %s" if isa == "x86" else "str x9, %s") % opnd(B, None, 1, D)
+        lines[0] = store_txt = store_fmt % opnd(B, None, 1, D)
         for op, R, X in script:
             if op == "add":
                 lines.append("addq $%d, %%%s" % (X, R) if isa == "x86" else "add %s, %s, #%d" % (R, R, X))
